@@ -362,6 +362,24 @@ impl<'a> GExec<'a> {
                 }
                 self.sim.count("F5.tamper_dup");
             }
+            Tamper::DupMany { i, n: k } => {
+                let i = *i as usize % n;
+                if let Some(s) = declared.signers.get(i).cloned() {
+                    for _ in 0..(1 + *k % 6) {
+                        declared.signers.insert(i, s.clone());
+                    }
+                }
+                self.sim.count("F5.tamper_dup_many");
+            }
+            Tamper::DupInflated { i } => {
+                let i = *i as usize % n;
+                if let Some(s) = declared.signers.get(i).cloned() {
+                    let mut big = s.clone();
+                    big.weight = u128::MAX / 2;
+                    declared.signers.insert(i, big);
+                }
+                self.sim.count("F5.tamper_dup_inflated_weight");
+            }
             Tamper::Swap { i, j } => {
                 let (i, j) = (*i as usize % n, *j as usize % n);
                 if i != j && declared.signers.len() > 1 {
